@@ -99,7 +99,16 @@ Inductive outcome := Accept (p : path) | Reject (r : reason).
 
 Record directive := { dir_is_mod : bool; dir_arg : arg }.
 
-Record cfg := { c_mod_dir : path; c_cwd : path; c_fs : fsys }.
+(* c_fixed selects the code variant that is modelled:
+     false = pinned commit: `!file.chars().all(is_ascii_alphanumeric)` only (so `#mod("")` passes),
+     true  = after the repair `file.is_empty() || !file.chars().all(..)` (known finding C28-1). *)
+Record cfg := { c_mod_dir : path; c_cwd : path; c_fs : fsys; c_fixed : bool }.
+
+Definition str_is_empty (s : str) : bool := match s with [] => true | _ => false end.
+
+(* the module-name test of lower_import *)
+Definition mod_name_ok (c : cfg) (s : str) : bool :=
+  forallb is_alnum s && negb (c_fixed c && str_is_empty s).
 
 Definition lower_import (c : cfg) (importer : path) (d : directive) : outcome :=
   match dir_arg d with
@@ -108,7 +117,7 @@ Definition lower_import (c : cfg) (importer : path) (d : directive) : outcome :=
   | ANonString => Reject RNonString
   | AStr s =>
       if dir_is_mod d then
-        if negb (forallb is_alnum s) then Reject RModNotAlnum else
+        if negb (mod_name_ok c s) then Reject RModNotAlnum else
         (* mod_dir.join(file).join("src"): joining "" adds nothing *)
         let folder := c_mod_dir c ++ (match s with [] => [] | _ => [s] end) ++ [s_src] in
         if negb (is_dir (c_fs c) folder) then Reject RModMissing else
